@@ -7,7 +7,7 @@ ghost text spliced in (see extract.py).
 """
 import re
 from .rustlex import mask, match_close, ExtractError
-from .extract import extract_fn, parse_kv
+from .extract import extract_fn, extract_stmts, parse_kv
 
 
 def _tag(text, tag):
@@ -44,6 +44,10 @@ def parse_unit(path):
             if kind in ('requires', 'ensures'):
                 if text.strip():
                     f.setdefault(kind, []).append((arg, text.strip()))
+            elif kind == 'sig':
+                f['wrapper_sig'] = text.strip()
+            elif kind == 'anchor':
+                f['anchors'].append(text.strip())
             elif kind == 'top':
                 f['top'] = _tag(text, 'GHOST')
             elif kind == 'bottom':
@@ -116,6 +120,17 @@ def parse_unit(path):
                           loops={}, directives=[], unit_line=ln, indent=kv.get('indent', ''),
                           sig_subst=[], optional=bool(kv.get('optional')))
             sec = ('none', None)
+        elif word == 'stmts':
+            kv = parse_kv(rest)
+            cur_fn = dict(file=kv['file'], name=kv['name'], src_fn=kv['fn'], impl=kv.get('impl'), ret=kv.get('ret'),
+                          rules=[r for r in kv.get('rules', '').split(',') if r], generics=None, nth=None,
+                          dropped_fields=[], loops={}, directives=[], unit_line=ln, indent=kv.get('indent', ''),
+                          sig_subst=[], optional=False, stmts=True, anchors=[], wrapper_sig=None)
+            sec = ('none', None)
+        elif word == 'sig':
+            sec = ('sig', None)
+        elif word == 'anchor':
+            sec = ('anchor', None)
         elif word == 'endfn':
             unit['chunks'].append(('fn', cur_fn, ln))
             cur_fn = None
@@ -232,7 +247,7 @@ def assemble(repo, unit):
         else:
             _, f, ln = ch
             try:
-                r = extract_fn(repo, f)
+                r = extract_stmts(repo, f) if f.get('stmts') else extract_fn(repo, f)
             except ExtractError as e:
                 if f.get('optional') and 'anchor lost: fn' in str(e):
                     log.append(f"{f['name']}: optional helper not present in the tree ({e}); block skipped")
